@@ -43,6 +43,7 @@ func newDriver(c cfg, w *vtrace.Writer) (*driver, error) {
 	d := &driver{s: s, w: w, rolled: map[int][]blk{}}
 	d.q = &recQueue{inner: s.pq}
 	d.ncp = s.adb.GetNumCheckpoints()
+	s.g.set(true)
 	return d, nil
 }
 
@@ -75,6 +76,16 @@ func (d *driver) do(o op, rng *rand.Rand) error {
 		return d.startJob(o.Op, idx)
 	case "step":
 		return d.step()
+	case "lstep":
+		if p := d.parkedLoop(); p != nil {
+			return d.release(p)
+		}
+		return fmt.Errorf("the snapshot loop is not parked")
+	case "genq":
+		if o.Idx < 1 || o.Idx > len(d.jobs) || d.parkedJob(d.jobs[o.Idx-1]) == nil {
+			return fmt.Errorf("accounts goroutine of job %d is not parked", o.Idx)
+		}
+		return d.release(d.parkedJob(d.jobs[o.Idx-1]))
 	case "drain":
 		return d.drainJobs()
 	}
@@ -86,7 +97,7 @@ func (d *driver) finish() error {
 	if err := d.drainJobs(); err != nil {
 		return err
 	}
-	d.s.db.setGate(false)
+	d.s.g.set(false)
 	for d.manual > 0 {
 		if err := d.exit(); err != nil {
 			return err
@@ -99,9 +110,16 @@ func (d *driver) finish() error {
 func randomTxs(rng *rand.Rand) []txop {
 	n := rng.Intn(4)
 	txs := make([]txop, 0, n)
+	dataTouched := map[int]bool{}
 	for i := 0; i < n; i++ {
 		t := txop{A: 1 + rng.Intn(3)}
-		switch r := rng.Intn(100); {
+		r := rng.Intn(100)
+		if r >= 65 && r < 80 && dataTouched[t.A] {
+			// RemoveAccount after a data trie change of the same account in the same block is refused by
+			// AccountsDB (the account's new data root is not committed yet)
+			r = 90
+		}
+		switch {
 		case r < 45:
 			t.K, t.X, t.V = "set", rng.Intn(len(dkeys)), 1+rng.Intn(2)
 		case r < 65:
@@ -112,6 +130,9 @@ func randomTxs(rng *rand.Rand) []txop {
 			t.K, t.V = "bal", rng.Intn(3)
 		default:
 			t.K, t.V = "code", 1+rng.Intn(2)
+		}
+		if t.K == "set" || t.K == "del" {
+			dataTouched[t.A] = true
 		}
 		txs = append(txs, t)
 	}
@@ -188,6 +209,9 @@ func main() {
 	switch os.Args[1] {
 	case "script":
 		runScript(os.Args[2], os.Args[3])
+	case "schedules":
+		seed, _ := strconv.ParseInt(os.Getenv("VERIF_SEED"), 10, 64)
+		schedules(os.Args[2], os.Args[3], seed)
 	case "record":
 		seed, _ := strconv.ParseInt(os.Args[2], 10, 64)
 		traces, _ := strconv.Atoi(os.Args[3])
